@@ -1,5 +1,6 @@
 """C05 — the Rust compiler agrees with the reference compiler on the corpus."""
 import json
+import random
 import os
 import subprocess
 from concurrent.futures import ProcessPoolExecutor
@@ -213,6 +214,56 @@ def path_at(log, i):
     return p
 
 
+def deep_walk(job):
+    """One random playthrough of both documents in lockstep, far beyond the exhaustive depth."""
+    e, wseed, max_turns = job
+    rng = random.Random(wseed)
+    a, b = play.RtSession(), play.RtSession()
+    out = {"idx": e["idx"], "diff": None, "turns": 0, "path": []}
+    ra, rb = a.send(["new", e["ref"]]), b.send(["new", e["rust"]])
+    if ra.get("r") != "ok" or rb.get("r") != "ok":
+        a.close(); b.close()
+        return out
+    for s in (a, b):
+        s.send(["seed", 1, 0]); s.send(["fuel", 200000])
+    path = []
+    for turn in range(max_turns):
+        n = 0
+        while True:
+            ca, cb = a.send(["can"]).get("v"), b.send(["can"]).get("v")
+            if ca != cb:
+                out["diff"] = ("can_continue", ca, cb)
+                break
+            if not ca or n > 400:
+                break
+            n += 1
+            la, lb = a.send(["cont"]), b.send(["cont"])
+            ta, tb = a.send(["tags"]).get("v"), b.send(["tags"]).get("v")
+            xa = (la.get("r"), la.get("v") if not e["shuffle"] else "", ta)
+            xb = (lb.get("r"), lb.get("v") if not e["shuffle"] else "", tb)
+            if xa != xb:
+                out["diff"] = ("line", xa, xb)
+                break
+            if la.get("r") != "ok":
+                break
+        if out["diff"]:
+            break
+        csa = [(c["text"], c["tags"]) for c in (a.send(["choices"]).get("v") or [])]
+        csb = [(c["text"], c["tags"]) for c in (b.send(["choices"]).get("v") or [])]
+        if csa != csb:
+            out["diff"] = ("choices", csa, csb)
+            break
+        if not csa:
+            break
+        k = rng.randrange(len(csa))
+        path.append(k)
+        a.send(["choose", k]); b.send(["choose", k])
+        out["turns"] += 1
+    out["path"] = path
+    a.close(); b.close()
+    return out
+
+
 def run(ctx):
     entries = [e for e in ctx.c05 if e.get("compile") == "ok"]
     for e in ctx.c05:
@@ -223,6 +274,7 @@ def run(ctx):
                           signature={"kind": "pair", "file": e["rel"], "what": "compile"})
     ctx.programs = len(entries)
     by_idx = {e["idx"]: e for e in entries}
+    ctx.c05_bounded = set()
     with ProcessPoolExecutor(max_workers=14) as ex:
         for idx, lr, cr, lb, cb in ex.map(one_pair, [(e, ctx.scratch) for e in entries], chunksize=1):
             e = by_idx[idx]
@@ -230,6 +282,8 @@ def run(ctx):
             ctx.case("pair:" + e["rel"], has_choice)
             ctx.count("paths", sum(1 for x in (lr or []) if isinstance(x, list) and x and x[0] == "g"))
             ctx.count("complete_pairs" if (cr and cb) else "bounded_pairs")
+            if not (cr and cb):
+                ctx.c05_bounded.add(idx)
             # tie: real log == model log, for both documents
             for which, real, model in (("reference document", lr, e["model_ref"]), ("compiled document", lb, e["model_rust"])):
                 if model is None:
@@ -254,6 +308,29 @@ def run(ctx):
             if len(ctx.samples) < 4 and has_choice:
                 ctx.sample({"file": e["rel"], "depth": e["depth"], "complete": bool(cr and cb), "log_entries": len(lr or []),
                             "theorem": e.get("theorem")})
+        # pairs the exhaustive exploration could not finish (The Intercept, stories that loop): random playthroughs
+        # of both documents in lockstep, to the end
+        bounded = [e for e in entries if e["idx"] in ctx.c05_bounded]
+        nwalk = 24 if ctx.tier == "quick" else 400
+        jobs = [(e, ctx.seed * 977 + e["idx"] * 131 + w, 120) for e in bounded
+                for w in range(nwalk if "Intercept" in e["rel"] else max(2, nwalk // 12))]
+        seen = set()
+        for out in ex.map(deep_walk, jobs, chunksize=2):
+            e = by_idx[out["idx"]]
+            ctx.case("walk:%s:%s" % (e["rel"], json.dumps(out["path"])), out["turns"] > 0)
+            ctx.count("deep_walks")
+            ctx.count("deep_walk_turns", out["turns"])
+            if out["diff"]:
+                what, ref, mine = out["diff"]
+                sig = json.dumps([e["rel"], what, ref])[:300]
+                if sig in seen:
+                    continue
+                seen.add(sig)
+                ctx.violation("oracle", {"source": e["rel"], "choice_path": out["path"], "differs_in": what,
+                                         "reference_compiled": ref, "this_compiler": mine,
+                                         "why": "along this playthrough the story compiled by this compiler behaves differently "
+                                                "from the reference-compiled one"},
+                              signature={"kind": "walk", "file": e["rel"], "what": what, "ref": json.dumps(ref)[:80]})
     ctx.count("theorems_generated", len(REQUIRED_THEOREMS))
     no_thm = [e["rel"] for e in entries if not e.get("theorem")]
     ctx.notes.append("pairs without a theorem (disagree on the model, or The Intercept: oracle + tie only): " + ", ".join(no_thm))
